@@ -649,9 +649,9 @@ func runDisputeHistory(t *testing.T, seed int64) (string, map[string]int, string
 					parts := pick(r, 1, 1, 2)
 					for k := 1; k <= parts; k++ {
 						dst := w.valOps[(src+k)%nVals]
-						x := pick(r, bquo(amt, bi(2)), bquo(amt, bi(3)), bquo(bmul(amt, bi(9)), bi(10)), bquo(amt, bi(4)))
+						x := pick(r, bquo(amt, bi(2)), bquo(amt, bi(3)), bquo(bmul(amt, bi(9)), bi(10)), bquo(amt, bi(4)), amt, amt)
 						if parts == 2 {
-							x = bquo(x, bi(2))
+							x = bquo(x, bi(2)) // (two halves of everything leave nothing behind either)
 						}
 						if x.Sign() <= 0 {
 							continue
